@@ -38,6 +38,7 @@ type Server struct {
 	payeeTemplatesCache   sync.Map // map[protocol.DocumentURI]map[string][]analyzer.PostingTemplate
 	publishMu             sync.Mutex
 	docGen                atomic.Uint64 // bumped whenever the set or the text of open documents changes
+	docSeq                sync.Map      // map[protocol.DocumentURI]uint64: number of the latest open/change/close of each document
 }
 
 func NewServer() *Server {
@@ -196,7 +197,7 @@ func (s *Server) DidOpen(ctx context.Context, params *protocol.DidOpenTextDocume
 		}
 		s.loader.InvalidateFile(path)
 	}
-	go s.publishDiagnostics(ctx, params.TextDocument.URI, params.TextDocument.Text)
+	go s.publishDiagnosticsAt(ctx, params.TextDocument.URI, params.TextDocument.Text, s.nextDocSeq(params.TextDocument.URI))
 	return nil
 }
 
@@ -231,7 +232,7 @@ func (s *Server) DidChange(ctx context.Context, params *protocol.DidChangeTextDo
 			}
 			s.loader.InvalidateFile(path)
 		}
-		go s.publishDiagnostics(ctx, params.TextDocument.URI, content)
+		go s.publishDiagnosticsAt(ctx, params.TextDocument.URI, content, s.nextDocSeq(params.TextDocument.URI))
 	}
 	return nil
 }
@@ -266,6 +267,7 @@ func isFullChange(r protocol.Range) bool {
 func (s *Server) DidClose(ctx context.Context, params *protocol.DidCloseTextDocumentParams) error {
 	s.documents.Delete(params.TextDocument.URI)
 	s.docGen.Add(1)
+	s.nextDocSeq(params.TextDocument.URI) // analyses still running are for a document that is gone
 	if path := uriToPath(params.TextDocument.URI); path != "" {
 		// from now on the file on disk counts again: unsaved edits are gone
 		s.loader.InvalidateFile(path)
@@ -296,7 +298,31 @@ func (s *Server) DidSave(ctx context.Context, params *protocol.DidSaveTextDocume
 	return nil
 }
 
+// nextDocSeq numbers the notifications that change a document (open, change,
+// close). The analysis started by one of them carries its number.
+func (s *Server) nextDocSeq(docURI protocol.DocumentURI) uint64 {
+	for {
+		old, _ := s.docSeq.LoadOrStore(docURI, uint64(0))
+		next := old.(uint64) + 1
+		if s.docSeq.CompareAndSwap(docURI, old, next) {
+			return next
+		}
+	}
+}
+
+func (s *Server) currentDocSeq(docURI protocol.DocumentURI) uint64 {
+	if v, ok := s.docSeq.Load(docURI); ok {
+		return v.(uint64)
+	}
+	return 0
+}
+
+// publishDiagnostics analyses content as the latest state of the document.
 func (s *Server) publishDiagnostics(ctx context.Context, docURI protocol.DocumentURI, content string) {
+	s.publishDiagnosticsAt(ctx, docURI, content, s.currentDocSeq(docURI))
+}
+
+func (s *Server) publishDiagnosticsAt(ctx context.Context, docURI protocol.DocumentURI, content string, seq uint64) {
 	verifhook.Point("diag.start", string(docURI), content)
 	defer verifhook.Point("diag.done", string(docURI), content)
 	if s.client == nil {
@@ -345,17 +371,19 @@ func (s *Server) publishDiagnostics(ctx context.Context, docURI protocol.Documen
 	}
 
 	verifhook.Point("diag.publish", string(docURI), content)
-	s.publishIfCurrent(ctx, docURI, content, diagnostics)
+	s.publishIfCurrent(ctx, docURI, seq, diagnostics)
 }
 
-// publishIfCurrent sends diagnostics unless the document has changed since
-// they were computed. Publications are serialised: the analysis of a later
-// version may finish before that of an earlier one, and the result for a
-// superseded version must never be the last thing the client sees.
-func (s *Server) publishIfCurrent(ctx context.Context, docURI protocol.DocumentURI, content string, diagnostics []protocol.Diagnostic) {
+// publishIfCurrent sends diagnostics unless the document has been changed or
+// closed since the notification that started their computation. Publications
+// are serialised: the analysis of a later version may finish before that of an
+// earlier one, and the result for a superseded version must never be the last
+// thing the client sees. Comparing texts is not enough: a text that returns
+// (A, B, A) would let through a result computed while the workspace held B.
+func (s *Server) publishIfCurrent(ctx context.Context, docURI protocol.DocumentURI, seq uint64, diagnostics []protocol.Diagnostic) {
 	s.publishMu.Lock()
 	defer s.publishMu.Unlock()
-	if current, ok := s.GetDocument(docURI); ok && current != content {
+	if s.currentDocSeq(docURI) != seq {
 		return
 	}
 	_ = s.client.PublishDiagnostics(ctx, &protocol.PublishDiagnosticsParams{
